@@ -7,14 +7,14 @@
    For levels 1..10 the round-trip clause is decided per explored run by the crate's decoder and by the
    extracted specification (see DESIGN.md, C01): C01_level0_lossless_for_every_input is the _partial form
    of the full statement (all levels), the Huffman/LZ engines being outside the model. *)
-From Coq Require Import ZArith NArith List.
+From Coq Require Import ZArith NArith List Bool.
 From MZ.lib Require Import Mach.
 From MZ.spec Require Import DeflateSpec.
 From MZ.gen Require Import GenZlib.
 From MZ.model Require Import DeflateCore.
 From MZ.lib Require Import Arr.
 From MZ.model Require InflateCore.
-From MZ.proofs Require Import DeflateFlags StoredSpec StoredRoundtrip StoredEndToEnd.
+From MZ.proofs Require Import DeflateFlags StoredSpec StoredRoundtrip StoredEndToEnd StoredEndToEndZ.
 Import ListNotations.
 Local Open Scope Z_scope.
 
@@ -68,3 +68,39 @@ Theorem C01_level0_raw_roundtrip_on_both_models_partial :
   InflateCore.cr_out res = N.of_nat (length data) /\
   aget_list (InflateCore.cr_buf res) 0 (InflateCore.cr_out res) = data.
 Proof. exact level0_raw_model_roundtrip. Qed.
+
+(* ... the same with zlib framing: the trailer the compressor model wrote is the Adler-32 the decoder model
+   computes, so the status is Done, every byte is consumed and the input comes back; and if the four trailer
+   bytes are replaced by any other 32-bit value the status is Adler32Mismatch (unless checking is switched
+   off by TINFL_FLAG_IGNORE_ADLER32) - the checksum clause of C09 on the same sub-language *)
+Theorem C01_level0_zlib_roundtrip_on_both_models_partial :
+  forall (data : list N) (cflags iflags : N) (out : list N) (o : arr) (A : N) (res : InflateCore.call_result),
+  hasf cflags FLAG_RAW = true -> hasf cflags FLAG_ZLIB = true -> bytes_ok data ->
+  compress_to_vec_inner data cflags = Ret (VBytes out) ->
+  InflateCore.has iflags InflateCore.F_ZLIB = true -> InflateCore.has iflags InflateCore.F_STOPBB = false ->
+  InflateCore.has iflags InflateCore.F_NONWRAP = true ->
+  (N.of_nat (length data) <= alen o)%N -> (alen o <= USIZE_MAX)%N -> (A < 2 ^ 32)%N ->
+  InflateCore.decompress InflateCore.dec_default (with_trailer out A) o 0 USIZE_MAX iflags = Ret res ->
+  with_trailer out (Adler.adler32 1 data) = out /\
+  InflateCore.cr_status res
+  = (if orb (InflateCore.has iflags InflateCore.F_IGNORE) (Adler.adler32 1 data =? A)%N
+     then InflateCore.Done else InflateCore.Adler32Mismatch) /\
+  InflateCore.cr_in res = N.of_nat (length out) /\
+  InflateCore.cr_out res = N.of_nat (length data) /\
+  aget_list (InflateCore.cr_buf res) 0 (InflateCore.cr_out res) = data.
+Proof. exact level0_zlib_model_roundtrip. Qed.
+
+(* non-vacuity: 300 bytes through both models, zlib level 0 (flags 528384 = FORCE_ALL_RAW_BLOCKS | WRITE_ZLIB_HEADER), decoder flags
+   PARSE_ZLIB_HEADER | NON_WRAPPING; and the same stream with trailer 0 *)
+Example C01_zlib_level0_through_both_models :
+  match compress_to_vec_inner (map (fun i => N.of_nat i mod 251)%N (seq 0 300)) 528384 with
+  | Ret (VBytes out) =>
+      match InflateCore.decompress InflateCore.dec_default out (amake 300 0) 0 USIZE_MAX 5,
+            InflateCore.decompress InflateCore.dec_default (with_trailer out 0) (amake 300 0) 0 USIZE_MAX 5 with
+      | Ret r1, Ret r2 => InflateCore.cr_status r1 = InflateCore.Done /\ InflateCore.cr_out r1 = 300%N /\
+                          InflateCore.cr_status r2 = InflateCore.Adler32Mismatch
+      | _, _ => False
+      end
+  | _ => False
+  end.
+Proof. vm_compute. repeat split; reflexivity. Qed.
